@@ -2,6 +2,9 @@ package runner
 
 import (
 	"context"
+	"time"
+
+	"github.com/prometheus/prometheus/promql"
 	"strings"
 
 	"github.com/prometheus/prometheus/model/labels"
@@ -147,5 +150,45 @@ func init() {
 			return false
 		}
 		return strings.Contains(r.Err.Error(), "vector cannot contain metrics with the same labelset")
+	})
+}
+
+func init() {
+	// KF-hints-invariant: Prometheus' PreprocessExpr decides step invariance of an
+	// aggregation from its operand alone; when the operand is step invariant but the
+	// parameter selects series (topk(scalar(count(m)), vector(1))) the engine plans the
+	// whole aggregation at the start time and hints [start-lookback, start] for the
+	// parameter's selector, while the reference hints the whole query range.
+	kf.Register("agg-param-selects-under-step-invariant", func(c *core.Case, expr parser.Expr) bool {
+		if expr == nil {
+			return false
+		}
+		e2, err := parser.ParseExpr(c.Query)
+		if err != nil {
+			return false
+		}
+		pre := promql.PreprocessExpr(e2, time.UnixMilli(c.Start), time.UnixMilli(c.End))
+		hit := false
+		parser.Inspect(pre, func(n parser.Node, _ []parser.Node) error {
+			si, ok := n.(*parser.StepInvariantExpr)
+			if !ok {
+				return nil
+			}
+			parser.Inspect(si.Expr, func(m parser.Node, _ []parser.Node) error {
+				agg, ok := m.(*parser.AggregateExpr)
+				if !ok || agg.Param == nil {
+					return nil
+				}
+				parser.Inspect(agg.Param, func(x parser.Node, _ []parser.Node) error {
+					if vs, ok := x.(*parser.VectorSelector); ok && vs.Timestamp == nil {
+						hit = true
+					}
+					return nil
+				})
+				return nil
+			})
+			return nil
+		})
+		return hit
 	})
 }
